@@ -8,11 +8,17 @@
      is +-(a fresh mask cell) + a rest that looks at none of the remaining masks);
    - its instances on the protocol's gadgets: input sharing, resharing (hence product followed
      by resharing), reveal (simulatable from the output), oblivious transfer (receiver).
-   The composition over whole compiled programs is NOT yet a theorem (C03_full): it is covered
-   by exact enumeration of all mask values for small bit-typed compiled graphs in the harness.
-   Not claimed: pseudo-randomness of AES. *)
+   - the composition over whole compiled programs of the elementwise fragment (add, subtract,
+     multiply, constants; every array type and width): C03_maskcheck_sound, the soundness theorem
+     of the static analysis [maskcheck] (Model/MaskCheck.v), which is run inside Coq on every
+     exported compiler output (T:maskcheck cases).
+   For compiled programs OUTSIDE that fragment (truncation, conversions, OT-based protocols,
+   permutations, ...) the composition is NOT a theorem (C03_full): it is covered by the gadget
+   theorems and by exact enumeration of all mask values for small bit-typed compiled graphs in
+   the harness.  Not claimed: pseudo-randomness of AES. *)
 From Coq Require Import Ring.
-From CC Require Import Base.Prelude Model.Privacy Proofs.PrivacyProofs.
+From CC Require Import Base.Prelude Base.Scalar Base.Ty Base.Shape Graph.Value Graph.IR
+  Model.RingEval Model.Knows Model.Privacy Proofs.PrivacyProofs Model.MaskCheck Proofs.MaskCheckProofs.
 
 Theorem C03_onetimepad :
   forall (G : Type) (gadd : G -> G -> G) (gneg : G -> G) (gzero gone : G) (gmul gsubr : G -> G -> G),
@@ -94,3 +100,123 @@ Print Assumptions C03_share_hides.
 Print Assumptions C03_reshare_hides.
 Print Assumptions C03_reveal_simulatable.
 Print Assumptions C03_ot_receiver_hides.
+
+(* ------------------------------------------------------------------ whole compiled programs *)
+(* Ring reading of a compiled graph of the elementwise fragment: [nval t x nodes i] is the value of
+   node i for input values x and idealised tape t (the PRF node with id j outputs the cell t j;
+   keys are the constant RKey); it is RingEval.reval (the reading C01's T:ring obligations are
+   proved about) wherever that succeeds: *)
+Theorem C03_mval_reval :
+  forall (R : Type) (r0 r1 : R) (radd rmul rsub : R -> R -> R) (ropp : R -> R),
+  ring_theory r0 r1 radd rmul rsub ropp eq ->
+  forall (catom : value -> R) (one : R) (t : Z -> R) (nodes : list node) (ins env : list (rval R)),
+  reval R r0 radd rmul rsub t catom one nodes [] ins = Some env ->
+  mval R r0 radd rmul rsub catom one t ins nodes = env.
+Proof. intros. eapply mval_reval; eauto. Qed.
+
+(* If maskcheck accepts the compiled graph for observer p then, for any two input vectors that
+   agree on p's own and on the public inputs and (if p is an output party) give the same
+   tape-independent output value, there is a bijection pi of the tape space (inverse pi') that
+   changes only the recorded mask cells and under which EVERY node of p's view (mc_vd: p's and
+   public inputs, PRF values under keys p holds, everything delivered to p, everything computed
+   from those) has the same value: p's view is identically distributed for x and x'. *)
+Theorem C03_maskcheck_sound :
+  forall (R : Type) (r0 r1 : R) (radd rmul rsub : R -> R -> R) (ropp : R -> R),
+  ring_theory r0 r1 radd rmul rsub ropp eq ->
+  forall (catom : value -> R) (one : R) (c : config) (p : party) (nodes : list node) (out : Z)
+         (M : list mask),
+  maskcheck c p nodes out = Some M ->
+  forall x x' : list (rval R),
+  (forall (j : nat) (st : status), nth_error (cfg_inputs c) j = Some st ->
+     st = StParty p \/ st = StPublic -> nth j x (RKey R) = nth j x' (RKey R)) ->
+  (zmem p (cfg_outputs c) = true ->
+   forall t t' : Z -> R,
+     nval R r0 radd rmul rsub catom one t x nodes out = nval R r0 radd rmul rsub catom one t' x' nodes out) ->
+  exists pi pi' : (Z -> R) -> Z -> R,
+    (forall t cl, pi' (pi t) cl = t cl) /\
+    (forall t cl, pi (pi' t) cl = t cl) /\
+    (forall t cl, zmem cl (mask_cells M) = false -> pi t cl = t cl) /\
+    (forall t i, mc_vd c p nodes i = true ->
+       nval R r0 radd rmul rsub catom one (pi t) x' nodes i = nval R r0 radd rmul rsub catom one t x nodes i).
+Proof. intros. eapply maskcheck_sound; eauto. Qed.
+
+(* Non-vacuity.  A compiled-style graph: three PRF keys (node 2i drawn by party i, copy 2i+1 sent
+   to party i-1), the input of party 0 shared as (x + r0 - r1, r1 - r2, r2 - r0), share i sent by
+   party i to party i-1, and the sum revealed to party 2 (party 1 sends the missing share). *)
+Definition ex_ty : ty := TArray [2] U32.
+Definition ex_nodes : list node :=
+  [ mkNode (ORandom (TArray [4] U32)) [] [] [] (TArray [4] U32);
+    mkNode ONOP [0] [] [ASend 0 2] (TArray [4] U32);
+    mkNode (ORandom (TArray [4] U32)) [] [] [] (TArray [4] U32);
+    mkNode ONOP [2] [] [ASend 1 0] (TArray [4] U32);
+    mkNode (ORandom (TArray [4] U32)) [] [] [] (TArray [4] U32);
+    mkNode ONOP [4] [] [ASend 2 1] (TArray [4] U32);
+    mkNode (OInput ex_ty) [] [] [] ex_ty;
+    mkNode (OPRF 1 ex_ty) [1] [] [] ex_ty;
+    mkNode (OPRF 2 ex_ty) [3] [] [] ex_ty;
+    mkNode (OPRF 3 ex_ty) [5] [] [] ex_ty;
+    mkNode OSubtract [7; 8] [] [] ex_ty;
+    mkNode OSubtract [8; 9] [] [] ex_ty;
+    mkNode OSubtract [9; 7] [] [] ex_ty;
+    mkNode OAdd [10; 6] [] [] ex_ty;
+    mkNode ONOP [13] [] [ASend 0 2] ex_ty;
+    mkNode ONOP [11] [] [ASend 1 0] ex_ty;
+    mkNode ONOP [12] [] [ASend 2 1] ex_ty;
+    mkNode ONOP [15] [] [ASend 1 2] ex_ty;
+    mkNode OAdd [14; 17] [] [] ex_ty;
+    mkNode OAdd [18; 16] [] [] ex_ty ].
+Definition ex_cfg : config := mkCfg [StParty 0] [2] [(0, 0); (2, 1); (4, 2)].
+
+(* observer 1 (no output): the share it receives is masked by the PRF value under key k0;
+   observer 2 (output party): the input share is masked by the PRF value under k1, the missing
+   output share is the reveal pattern; observer 0 (the input owner): masked by k2's value *)
+Example C03_maskcheck_example :
+  maskcheck ex_cfg 1 ex_nodes 19 = Some [(7, true, 16)] /\
+  maskcheck ex_cfg 2 ex_nodes 19 = Some [(8, true, 14)] /\
+  maskcheck ex_cfg 0 ex_nodes 19 = Some [(9, true, 15)] /\
+  (* the views are not empty: deliveries, own PRF values and the output are in the view *)
+  map (mc_vd ex_cfg 2 ex_nodes) [1; 7; 8; 9; 14; 17; 19] = [true; true; false; true; true; true; true] /\
+  viewcover ex_cfg 0 ex_nodes && viewcover ex_cfg 1 ex_nodes && viewcover ex_cfg 2 ex_nodes = true.
+Proof. vm_compute. repeat split. Qed.
+
+(* the same graph where party 2 forwards share 0 (= x + r0 - r1, which it holds) to party 1:
+   party 1 knows r1 and has already used r0 as the pad of share 2, so nothing masks it *)
+Definition ex_leaky : list node :=
+  firstn 16 ex_nodes ++ [mkNode ONOP [12] [] [ASend 2 1] ex_ty;
+                        mkNode ONOP [15] [] [ASend 1 2] ex_ty;
+                        mkNode OAdd [14; 17] [] [] ex_ty;
+                        mkNode OAdd [18; 16] [] [] ex_ty;
+                        mkNode ONOP [14] [] [ASend 2 1] ex_ty].
+(* ... and the graph where the input is sent to party 1 without any mask *)
+Definition ex_unmasked : list node :=
+  firstn 16 ex_nodes ++ [mkNode ONOP [6] [] [ASend 2 1] ex_ty] ++ skipn 17 ex_nodes.
+Example C03_maskcheck_rejects :
+  maskcheck ex_cfg 1 ex_leaky 19 = None /\ mc_rejected ex_cfg 1 ex_leaky 19 = [20] /\
+  maskcheck ex_cfg 1 ex_unmasked 19 = None /\ mc_rejected ex_cfg 1 ex_unmasked 19 = [16] /\
+  (* the other observers are unaffected *)
+  isSome (maskcheck ex_cfg 0 ex_leaky 19) && isSome (maskcheck ex_cfg 2 ex_leaky 19) = true.
+Proof. vm_compute. repeat split. Qed.
+
+(* the theorem's bijection on the sharing part of the example (output kept shared), over the ring
+   Z, for observer 2 and the secrets 5 / 42 of party 0: every node of the observer's view has the
+   same value with (42, pi t) as with (5, t); pi moves the mask cell 8 *)
+Definition ex_share : list node := firstn 17 ex_nodes.
+Definition ex_cfg0 : config := mkCfg [StParty 0] [] [(0, 0); (2, 1); (4, 2)].
+Example C03_maskcheck_instance :
+  let V := nval Z 0 Z.add Z.mul Z.sub (fun _ => 7) 1 in
+  let ds := dlist Z 0 Z.add Z.mul Z.sub Z.opp (fun _ => 7) 1 ex_share [(8, true, 14)] in
+  let pi := pi Z Z.add Z.opp Z Z.eqb (list (rval Z)) ds [RLeaf Z 5] [RLeaf Z 42] in
+  let t := fun cl => cl * 10 + 3 in
+  maskcheck ex_cfg0 2 ex_share 16 = Some [(8, true, 14)] /\
+  forallb (fun i => negb (mc_vd ex_cfg0 2 ex_share i) ||
+                    match V (pi t) [RLeaf Z 42] ex_share i, V t [RLeaf Z 5] ex_share i with
+                    | RLeaf _ a, RLeaf _ b => a =? b | RKey _, RKey _ => true | _, _ => false end)
+          [0; 1; 2; 3; 4; 5; 6; 7; 8; 9; 10; 11; 12; 13; 14; 15; 16] = true /\
+  map (mc_vd ex_cfg0 2 ex_share) [1; 5; 6; 7; 8; 9; 12; 14; 15; 16]
+    = [true; true; false; true; false; true; true; true; false; true] /\
+  V (pi t) [RLeaf Z 42] ex_share 14 = RLeaf Z (-5) /\ V t [RLeaf Z 5] ex_share 14 = RLeaf Z (-5) /\
+  (t 8, pi t 8) = (83, 120).
+Proof. vm_compute. repeat split. Qed.
+
+Print Assumptions C03_mval_reval.
+Print Assumptions C03_maskcheck_sound.
